@@ -22,7 +22,9 @@ RULE = ('scenarios = body write pattern x text/binary x destination absent/prese
         'explicit part_file x file_perms; for each scenario the save is crashed immediately before each '
         'of its file-system events (open/chmod/write/flush/fsync/close/rename/link/unlink...) and after '
         'the last, exhaustively per scenario, in a forked child (interposer) and, for a subset, under '
-        'strace SIGKILL injection per syscall; distinct = distinct (scenario, crash point) pairs at which '
+        'strace SIGKILL injection per syscall; also: the publishing rename/link refused by the OS (EBUSY, EXDEV, '
+        'EPERM, EIO) followed by a crash at every later event, bodies that close the file themselves, bodies left '
+        'through BaseExceptions, persistent ENOSPC and RLIMIT_FSIZE; distinct = distinct (scenario, crash point) pairs at which '
         'the part file or destination had already been touched')
 ASSUMPTIONS = [
     'a killed process keeps the page cache: "synced to stable storage" is decided on the ORDER of '
@@ -81,6 +83,14 @@ def scenarios(r, n, ctx):
                                   'text_mode': False, 'file_perms': None, 'umask': 0o022, 'dest': dest,
                                   'part': 'absent', 'writes': body, 'flush': [], 'raise_at': at,
                                   'raise_kind': kind})
+    # a body that closes the file object it was handed (fo.close(), `with fo:`, a TextIOWrapper owning it)
+    for how in ('close', 'with'):
+        for dest in ('absent', 'present'):
+            for body in ([5], [20000], [3, 4, 5]):
+                for text in (False, True):
+                    extra.append({'overwrite': True, 'overwrite_part': False, 'rm_part_on_exc': True,
+                                  'text_mode': text, 'file_perms': None, 'umask': 0o022, 'dest': dest,
+                                  'part': 'absent', 'writes': body, 'flush': [], 'body_close': how})
     return out, extra
 
 
@@ -132,6 +142,34 @@ def check_scenario_B(fu, scn, stats, viol):
             if res['exc'] is None:
                 viol('body-unwinds:swallowed', 'exception from the body did not propagate',
                      {'layer': 'B', 'scn': scn, 'crash_before': None})
+            return
+        if scn.get('body_close'):
+            # refusing such a save is fine (nothing may then have been published); completing it is fine too, but
+            # only if the data was synced after the last write and before the publishing step
+            stats.evaluations += 1
+            stats.monitor_evals += 1
+            stats.count('body-closes-file:' + ('refused' if res['exc'] is not None else 'completed'))
+            bad = classify_dest(res['after'], res['before'], want)
+            a = res['after']['dest']
+            if res['exc'] is not None:
+                if bad or (a is not None and a['bytes'] == want and
+                           (res['before']['dest'] is None or res['before']['dest']['bytes'] != want)):
+                    viol('body-closes-file:raised-but-published', 'save raised %r yet the destination holds %r...'
+                         % (res['exc'], a and a['bytes'][:30]), {'layer': 'B', 'scn': scn, 'crash_before': None})
+                return
+            if a is None or a['bytes'] != want:
+                viol('body-closes-file:completed-without-the-content', 'destination holds %r...' % (a and a['bytes'][:30],),
+                     {'layer': 'B', 'scn': scn, 'crash_before': None})
+            names = [e[0] for e in log]
+            pubs = [i for i, n_ in enumerate(names) if n_ in ('rename', 'link')]
+            last_data = max([i for i, n_ in enumerate(names) if n_ in ('write', 'close')] or [-1])
+            if pubs and not [i for i, n_ in enumerate(names) if n_ == 'fsync' and last_data < i < pubs[0]] \
+                    and not [i for i, n_ in enumerate(names) if n_ == 'fsync' and i < pubs[0] and
+                             not [j for j in range(i, pubs[0]) if names[j] == 'write']]:
+                viol('body-closes-file:published-without-fsync', 'the body closed the part file; the save then '
+                     'published it without any fsync: %r' % (log,), {'layer': 'B', 'scn': scn, 'crash_before': None})
+            for msg in F.dest_touch_violations(log, res['dest']):
+                viol('order:' + sigkey(msg), msg, {'layer': 'B', 'scn': scn, 'crash_before': None})
             return
         if res['exc'] is not None:
             viol('normal-exit:raised', 'fault-free save raised %r' % res['exc'],
@@ -193,6 +231,46 @@ def check_scenario_B(fu, scn, stats, viol):
                      % (limit, len(want), status, after['dest'] and after['dest']['bytes'][:30]),
                      {'layer': 'B', 'scn': scn, 'crash_before': None})
             shutil.rmtree(dl, ignore_errors=True)
+        # the publishing step itself is refused by the operating system (EBUSY on a bind mount, EXDEV, EPERM ...):
+        # whatever the save does next, the destination may only change through an atomic rename/link - so it is
+        # old-or-complete at every crash point after the refusal and is never opened for writing
+        pub = [i for i, ev in enumerate(log) if ev[0] in ('rename', 'link')]
+        for en in (_errno.EBUSY, _errno.EXDEV, _errno.EPERM, _errno.EIO):
+            if not pub:
+                break
+            dp = os.path.join(base, 'p%d' % en)
+            os.mkdir(dp)
+            rp = F.run_in_process(fu, scn, dp, faults={pub[0]: en})
+            stats.evaluations += 1
+            stats.monitor_evals += 1
+            stats.count('publish-refused:' + _errno.errorcode[en])
+            bad = classify_dest(rp['after'], rp['before'], want)
+            tag = 'publish-refused:%s:%s' % (log[pub[0]][0], _errno.errorcode[en])
+            if bad or (rp['exc'] is None and (rp['after']['dest'] is None or rp['after']['dest']['bytes'] != want)):
+                viol(tag + ':' + (bad or 'reported-success-without-the-content'),
+                     'publication refused with %s: save %s, destination holds %r...'
+                     % (_errno.errorcode[en], 'raised %r' % rp['exc'] if rp['exc'] else 'returned normally',
+                        rp['after']['dest'] and rp['after']['dest']['bytes'][:30]),
+                     {'layer': 'B', 'scn': scn, 'crash_before': None})
+            for msg in F.dest_touch_violations(rp['log'], rp['dest']):
+                viol(tag + ':' + sigkey(msg), msg + ' | log=%r' % (rp['log'],),
+                     {'layer': 'B', 'scn': scn, 'crash_before': None})
+            shutil.rmtree(dp, ignore_errors=True)
+            for k in range(pub[0] + 1, len(rp['log']) + 1):
+                dk = os.path.join(base, 'pk%d_%d' % (en, k))
+                os.mkdir(dk)
+                status, after, before = F.run_crash_child(fu, scn, dk, k if k < len(rp['log']) else None,
+                                                          faults={pub[0]: en})
+                stats.evaluations += 1
+                stats.monitor_evals += 1
+                stats.count('crash-after-refused-publication')
+                bad = classify_dest(after, before, want)
+                if bad:
+                    viol(tag + ':then-crash:' + bad, 'publication refused with %s, then killed before event %d of %r: '
+                         'destination holds %r...' % (_errno.errorcode[en], k, rp['log'],
+                                                      after['dest'] and after['dest']['bytes'][:30]),
+                         {'layer': 'B', 'scn': scn, 'crash_before': k})
+                shutil.rmtree(dk, ignore_errors=True)
         touched = False
         for k in range(n + 1):
             dk = os.path.join(base, 'k%d' % k)
@@ -253,6 +331,31 @@ def check_scenario_A(scn, stats, viol):
                  % [(e['sys'], e['args'][:60]) for e in ev], {'layer': 'A', 'scn': scn, 'inject': None})
         if len(stats.samples) < 4:
             stats.sample({'scenario': scn, 'strace': [(e['sys'], e['args'][:70], e['ret']) for e in ev]})
+        # kernel-level refusal of the publishing call: afterwards the destination is old or complete and was
+        # never opened for writing / truncated / unlinked (seen at the syscall boundary, whatever library did it)
+        pubsys = sorted(set(e['sys'] for e in ev if e['sys'] in ('rename', 'renameat', 'renameat2', 'link', 'linkat')))
+        for sysname in pubsys:
+            for en in ('EBUSY', 'EXDEV', 'EPERM'):
+                dk = os.path.join(base, 'refuse-%s-%s' % (sysname, en))
+                os.mkdir(dk)
+                dest_k, part_k = F.prepare_dir(scn, dk)
+                before_k = F.snapshot(dk, dest_k, part_k)
+                inj = '%s:error=%s:when=1' % (sysname, en)
+                rc2, ev2, _ = F.strace_run(scn, dk, repo, inject=inj)
+                stats.evaluations += 1
+                stats.monitor_evals += 1
+                stats.count('strace-publish-refused:' + en)
+                after_k = F.snapshot(dk, dest_k, part_k)
+                bad = classify_dest(after_k, before_k, want)
+                if bad or (rc2 == 0 and (after_k['dest'] is None or after_k['dest']['bytes'] != want)):
+                    viol('strace-publish-refused:%s:%s' % (en, bad or 'reported-success-without-the-content'),
+                         '%s refused with %s: driver exit %s, destination holds %r...'
+                         % (sysname, en, rc2, after_k['dest'] and after_k['dest']['bytes'][:30]),
+                         {'layer': 'A', 'scn': scn, 'inject': inj})
+                for msg in F.strace_order_violations(ev2, dest_k, part_k):
+                    viol('strace-publish-refused:%s:%s' % (en, sigkey(msg)), msg + ' | trace=%r'
+                         % [(e2['sys'], e2['args'][:60], e2['ret']) for e2 in ev2], {'layer': 'A', 'scn': scn, 'inject': inj})
+                shutil.rmtree(dk, ignore_errors=True)
         counts = {}
         for e in ev:
             counts[e['sys']] = counts.get(e['sys'], 0) + 1
